@@ -265,7 +265,8 @@ Proof.
   apply np_bind; [apply np_read_pkt_header|]. intros [tag content] _.
   destruct (tag =? 2).
   - destruct content as [|v c]; [reflexivity|].
-    destruct (v <? 4); [apply np_parse_sig3|apply np_parse_sig4].
+    apply np_bind; [destruct (v <? 4); [apply np_parse_sig3|apply np_parse_sig4]|].
+    intros. destruct (pkt_complete sig); reflexivity.
   - destruct (other_packet_tag tag); [|reflexivity].
     apply np_bind; [apply Ho|]. intros. reflexivity.
 Qed.
@@ -906,6 +907,31 @@ Proof.
       rewrite be_to_N_to_be4 by exact Hb. subst n. rewrite firstn_N_all. reflexivity.
 Qed.
 
+Lemma fits_all : forall l, fits (lenN l) l = true.
+Proof. intros. unfold fits. apply N.leb_refl. Qed.
+
+Lemma pkt_complete_new : forall body, lenN body < 4294967296 ->
+  pkt_complete (194 :: new_len (lenN body) ++ body) = true.
+Proof.
+  intros body Hb. unfold pkt_complete.
+  change (194 <? 128) with false. change ((194 / 64) mod 2 =? 0) with false.
+  cbv iota. unfold new_len. set (n := lenN body) in *.
+  destruct (n <? 192) eqn:E1.
+  - cbn [app]. rewrite E1. subst n. apply fits_all.
+  - destruct (n <? 8384) eqn:E2.
+    + cbn [app].
+      assert (Hq : (n - 192) / 256 < 32) by (apply N.div_lt_upper_bound; lia).
+      assert (H1 : (192 + (n - 192) / 256 <? 192) = false) by lia.
+      assert (H2 : (192 + (n - 192) / 256 <? 224) = true) by lia.
+      rewrite H1, H2.
+      assert (Hv : (192 + (n - 192) / 256 - 192) * 256 + (n - 192) mod 256 + 192 = n).
+      { pose proof (N.div_mod (n - 192) 256). lia. }
+      rewrite Hv. subst n. apply fits_all.
+    + cbn [app]. change (255 <? 192) with false. change (255 <? 224) with false. change (255 <? 255) with false.
+      cbv iota. rewrite need_app by (rewrite length_N_to_be; reflexivity).
+      rewrite be_to_N_to_be4 by exact Hb. subst n. apply fits_all.
+Qed.
+
 Lemma parse_subpackets_nil : forall f emb st h, parse_subpackets f emb st [] h = Ok st.
 Proof. intros [|f] emb st h; reflexivity. Qed.
 
@@ -1011,6 +1037,7 @@ Proof.
     rewrite Eb. rewrite pkt_header_new by (rewrite !lenN_cons; lia).
     cbn [bind]. change (2 =? 2) with true. cbv iota. change (3 <? 4) with true. cbv iota.
     rewrite (parse_sig3_canon _ _ _ _ _ _ _ _ _ _ _ _ _ _ _ _ _ _ k) by assumption.
+    cbn [bind]. rewrite pkt_complete_new by (rewrite !lenN_cons; lia).
     rewrite Hiss. reflexivity.
   - assert (Eb : sig_body s = 4 :: sp_sigtype s :: sp_algo s :: sp_hash s :: 0 :: 6 :: 5 :: 2 :: c1 :: c2 :: c3 :: c4
                    :: 0 :: 10 :: 9 :: 16 :: i1 :: i2 :: i3 :: i4 :: i5 :: i6 :: i7 :: i8 :: h1 :: h2
@@ -1019,6 +1046,7 @@ Proof.
     rewrite Eb. rewrite pkt_header_new by (rewrite !lenN_cons; lia).
     cbn [bind]. change (2 =? 2) with true. cbv iota. change (4 <? 4) with false. cbv iota.
     rewrite (parse_sig4_canon _ _ _ _ _ _ _ _ _ _ _ _ _ _ _ _ _ _ k) by assumption.
+    cbn [bind]. rewrite pkt_complete_new by (rewrite !lenN_cons; lia).
     rewrite Hiss. reflexivity.
 Qed.
 
@@ -2357,6 +2385,145 @@ Proof.
   - apply pkt_header_partial. exact H.
 Qed.
 
+(* ---- all announced octets are there (packet.Read consumes the packet to its end) ---- *)
+
+Lemma pkt_complete_old : forall lt body, lt <= 2 -> lenN body < 256 ^ (2 ^ lt) ->
+  pkt_complete ((136 + lt) :: N_to_be (N.to_nat (2 ^ lt)) (lenN body) ++ body) = true.
+Proof.
+  intros lt body Hlt Hn.
+  assert (Hc : lt = 0 \/ lt = 1 \/ lt = 2) by lia.
+  destruct Hc as [->|[->| ->]]; unfold pkt_complete; cbv zeta.
+  - change (136 + 0) with 136. change (136 <? 128) with false. change ((136 / 64) mod 2 =? 0) with true.
+    change (136 mod 4) with 0. change (0 =? 3) with false. cbv iota.
+    change (N.to_nat (2 ^ 0)) with 1%nat. rewrite need_app by (rewrite length_N_to_be; reflexivity).
+    rewrite (be_to_N_to_be 1) by exact Hn. apply fits_all.
+  - change (136 + 1) with 137. change (137 <? 128) with false. change ((137 / 64) mod 2 =? 0) with true.
+    change (137 mod 4) with 1. change (1 =? 3) with false. cbv iota.
+    change (N.to_nat (2 ^ 1)) with 2%nat. rewrite need_app by (rewrite length_N_to_be; reflexivity).
+    rewrite (be_to_N_to_be 2) by exact Hn. apply fits_all.
+  - change (136 + 2) with 138. change (138 <? 128) with false. change ((138 / 64) mod 2 =? 0) with true.
+    change (138 mod 4) with 2. change (2 =? 3) with false. cbv iota.
+    change (N.to_nat (2 ^ 2)) with 4%nat. rewrite need_app by (rewrite length_N_to_be; reflexivity).
+    rewrite (be_to_N_to_be 4) by exact Hn. apply fits_all.
+Qed.
+
+Lemma pkt_complete_newform : forall f body, new_len_ok f (lenN body) = true ->
+  pkt_complete (194 :: new_len_form f (lenN body) ++ body) = true.
+Proof.
+  intros f body H. unfold new_len_ok in H. unfold pkt_complete, new_len_form.
+  change (194 <? 128) with false. change ((194 / 64) mod 2 =? 0) with false.
+  cbv iota zeta. set (n := lenN body) in *.
+  destruct (f =? 1).
+  - cbn [app]. rewrite H. subst n. apply fits_all.
+  - destruct (f =? 2).
+    + cbn [app]. apply andb_prop in H as [H1 H2].
+      assert (Hq : (n - 192) / 256 < 32) by (apply N.div_lt_upper_bound; lia).
+      assert (X1 : (192 + (n - 192) / 256 <? 192) = false) by lia.
+      assert (X2 : (192 + (n - 192) / 256 <? 224) = true) by lia.
+      rewrite X1, X2.
+      assert (Hv : (192 + (n - 192) / 256 - 192) * 256 + (n - 192) mod 256 + 192 = n).
+      { pose proof (N.div_mod (n - 192) 256). lia. }
+      rewrite Hv. subst n. apply fits_all.
+    + apply andb_prop in H as [_ H].
+      cbn [app]. change (255 <? 192) with false. change (255 <? 224) with false. change (255 <? 255) with false.
+      cbv iota. rewrite need_app by (rewrite length_N_to_be; reflexivity).
+      rewrite be_to_N_to_be4 by lia. subst n. apply fits_all.
+Qed.
+
+Lemma partial_complete_S : forall f chunk r,
+  partial_complete (S f) chunk r =
+  if lenN r <=? chunk then false
+  else
+    match skipn (N.to_nat chunk) r with
+    | c :: r' =>
+        if c <? 192 then fits c r'
+        else if c <? 224 then
+          match r' with
+          | d :: r'' => fits ((c - 192) * 256 + d + 192) r''
+          | [] => false
+          end
+        else if c <? 255 then partial_complete f (2 ^ (c mod 32)) r'
+        else
+          match r' with
+          | b1 :: b2 :: b3 :: b4 :: r'' => fits (be_to_N [b1; b2; b3; b4]) r''
+          | _ => false
+          end
+    | [] => false
+    end.
+Proof. intros. cbn [partial_complete]. destruct (lenN r <=? chunk); [reflexivity|]. destruct (skipn (N.to_nat chunk) r); reflexivity. Qed.
+
+Lemma partial_complete_chunks : forall ks k f body fuel,
+  k <= 30 -> 2 ^ k <= lenN body -> partial_ok ks f (lenN body - 2 ^ k) = true ->
+  (length (firstn (N.to_nat (2 ^ k)) body ++ partial_chunks ks f (skipn (N.to_nat (2 ^ k)) body)) <= fuel)%nat ->
+  partial_complete fuel (2 ^ k) (firstn (N.to_nat (2 ^ k)) body ++ partial_chunks ks f (skipn (N.to_nat (2 ^ k)) body)) = true.
+Proof.
+  induction ks as [|k2 ks IH]; intros k f body fuel Hk Hle Hok Hfuel.
+  - destruct (firstn_skipn_lenN body (2 ^ k) Hle) as [HA HB].
+    set (A := firstn (N.to_nat (2 ^ k)) body) in *. set (B := skipn (N.to_nat (2 ^ k)) body) in *.
+    cbn [partial_chunks partial_ok] in *. rewrite <- HB in Hok.
+    pose proof (new_len_form_nonempty f (lenN B)) as Hne.
+    rewrite !app_length in Hfuel. destruct fuel as [|fu]; [lia|].
+    rewrite partial_complete_S.
+    assert (X : (lenN (A ++ new_len_form f (lenN B) ++ B) <=? 2 ^ k) = false)
+      by (rewrite !lenN_app; unfold lenN at 2; lia).
+    rewrite X.
+    replace (N.to_nat (2 ^ k)) with (length A) by (unfold lenN in HA; lia).
+    rewrite skipn_app_exact by reflexivity.
+    unfold new_len_ok in Hok. unfold new_len_form. set (n := lenN B) in *.
+    destruct (f =? 1).
+    + cbn [app]. rewrite Hok. subst n. apply fits_all.
+    + destruct (f =? 2).
+      * cbn [app]. apply andb_prop in Hok as [H1 H2].
+        assert (Hq : (n - 192) / 256 < 32) by (apply N.div_lt_upper_bound; lia).
+        assert (X1 : (192 + (n - 192) / 256 <? 192) = false) by lia.
+        assert (X2 : (192 + (n - 192) / 256 <? 224) = true) by lia.
+        rewrite X1, X2.
+        assert (Hv : (192 + (n - 192) / 256 - 192) * 256 + (n - 192) mod 256 + 192 = n).
+        { pose proof (N.div_mod (n - 192) 256). lia. }
+        rewrite Hv. subst n. apply fits_all.
+      * apply andb_prop in Hok as [_ Hok].
+        destruct (be_to_N_4 n ltac:(lia)) as (b1 & b2 & b3 & b4 & E & Ev). rewrite E.
+        cbn [app]. change (255 <? 192) with false. change (255 <? 224) with false. change (255 <? 255) with false.
+        cbv iota. rewrite Ev. subst n. apply fits_all.
+  - destruct (firstn_skipn_lenN body (2 ^ k) Hle) as [HA HB].
+    set (A := firstn (N.to_nat (2 ^ k)) body) in *. set (B := skipn (N.to_nat (2 ^ k)) body) in *.
+    cbn [partial_chunks partial_ok] in *. rewrite <- HB in Hok.
+    apply andb_prop in Hok as [Hok Hrest]. apply andb_prop in Hok as [Hk2 Hle2].
+    rewrite app_length in Hfuel. cbn [length] in Hfuel. destruct fuel as [|fu]; [lia|].
+    rewrite partial_complete_S.
+    assert (X : (lenN (A ++ (224 + k2) :: firstn (N.to_nat (2 ^ k2)) B ++ partial_chunks ks f (skipn (N.to_nat (2 ^ k2)) B)) <=? 2 ^ k) = false)
+      by (rewrite lenN_app, lenN_cons; lia).
+    rewrite X.
+    replace (N.to_nat (2 ^ k)) with (length A) by (unfold lenN in HA; lia).
+    rewrite skipn_app_exact by reflexivity.
+    assert (X1 : (224 + k2 <? 192) = false) by lia. assert (X2 : (224 + k2 <? 224) = false) by lia.
+    assert (X3 : (224 + k2 <? 255) = true) by lia. rewrite X1, X2, X3.
+    rewrite mod32_224 by lia. apply IH; [lia|lia|exact Hrest|lia].
+Qed.
+
+Lemma pkt_complete_wrap : forall pf body, pform_ok pf (lenN body) = true ->
+  pkt_complete (wrap_sig pf body) = true.
+Proof.
+  intros pf body H. unfold pform_ok in H. apply andb_prop in H as [Hn H].
+  destruct pf as [lt|f|ks f]; cbn [wrap_sig].
+  - destruct (lt =? 3) eqn:E3.
+    + apply N.eqb_eq in E3. subst lt. reflexivity.
+    + cbn [orb] in H. apply andb_prop in H as [H1 H2]. apply pkt_complete_old; lia.
+  - apply pkt_complete_newform. exact H.
+  - destruct ks as [|k ks].
+    + cbn [partial_chunks partial_ok] in *. apply pkt_complete_newform. exact H.
+    + cbn [partial_chunks partial_ok] in *.
+      apply andb_prop in H as [H Hrest]. apply andb_prop in H as [Hk Hle].
+      unfold pkt_complete.
+      change (194 <? 128) with false. change ((194 / 64) mod 2 =? 0) with false. cbv iota.
+      assert (X1 : (224 + k <? 192) = false) by lia. assert (X2 : (224 + k <? 224) = false) by lia.
+      assert (X3 : (224 + k <? 255) = true) by lia. rewrite X1, X2, X3.
+      rewrite mod32_224 by lia. apply partial_complete_chunks; [lia|lia|exact Hrest|lia].
+Qed.
+
+Lemma bind_ok_id : forall A (r : result A), (let* p := r in Ok p) = r.
+Proof. intros A [a|e|e]; reflexivity. Qed.
+
 (* ---- signature bodies ---- *)
 
 
@@ -2475,6 +2642,7 @@ Proof.
   pose proof (sf_tag s F) as Ht. pose proof (sf_version s F) as Hv.
   unfold packet_read, gencode_sig. rewrite pkt_header_wrap by exact (sf_form s F). cbn [bind].
   change (2 =? 2) with true. cbv iota.
+  rewrite pkt_complete_wrap by exact (sf_form s F).
   unfold gsig_body, gsig_view, gsig_issuer.
   destruct (gs_hashtag s) as [|h1 [|h2 [|]]]; try discriminate.
   destruct (gs_version s <? 4) eqn:E4.
@@ -2482,10 +2650,10 @@ Proof.
     cbn [app]. rewrite E4.
     change (gs_version s :: 5 :: gs_sigtype s :: (N_to_be 4 (gs_created s) ++ N_to_be 8 (gs_issuer s) ++ [gs_algo s; gs_hash s]) ++ [h1; h2] ++ flat_map enc_mpib (gs_mpis s))
       with (([gs_version s; 5; gs_sigtype s] ++ N_to_be 4 (gs_created s) ++ N_to_be 8 (gs_issuer s) ++ [gs_algo s; gs_hash s]) ++ [h1; h2] ++ flat_map enc_mpib (gs_mpis s)).
-    rewrite <- !app_assoc.
+    rewrite bind_ok_id. rewrite <- !app_assoc.
     apply (parse_sig3_body _ _ _ _ _ _ _ _ _ k); try assumption; try lia. apply (sf_hash s F). apply (sf_mpilen s F).
   - destruct Hv as (H4 & Ha & Hsh & Hsu & Hct & HlH & HlU).
-    cbn [app]. change (4 <? 4) with false. cbv iota.
+    cbn [app]. change (4 <? 4) with false. cbv iota. rewrite bind_ok_id.
     pose proof (parse_sig4_body (gs_sigtype s) (gs_algo s) (gs_hash s) (gs_hashed s) (gs_unhashed s) h1 h2 (gs_mpis s) k
                   Ha (sf_hash s F) Hk Hlen (sf_mpilen s F) Hsh Hsu Hct HlH HlU) as P.
     cbv zeta in P. cbn [app] in P. rewrite <- !app_assoc. exact P.
